@@ -33,7 +33,7 @@ Audit(q) == LET bad == {f \in {"d", "alpha", "chi", "ns"} : ~DClose(q.lib[f], q.
 
 Step(q) ==
   CASE q.k = "scen" -> [scenarios |-> Scenarios, adsorbents |-> Adsorbents, adsorbates |-> Adsorbates,
-                        hist_configs |-> HistConfigs, histories |-> SetToSeq(Histories)]
+                        hist_configs |-> HistConfigs, api_storage |-> ApiStorage, histories |-> SetToSeq(Histories)]
     [] q.k = "pub" -> [v |-> PublishedPhi(q.kind, q.L, q.a, q.h, q.T)]
     [] q.k = "prep" -> Prep(q)
     [] q.k = "slit" -> Slit(q)
